@@ -42,6 +42,11 @@ def ev(S, F, x, asg, tabs=None):
         if x[1] in ps:
             return ps[x[1]]
         raise Unknown("parameter %s" % x[1])
+    if k == "cparam":
+        cp = asg.get("cparams") or {}
+        if x[1] in cp:
+            return cp[x[1]]
+        raise Unknown("const parameter %s" % x[1])
     if k == "cpath":
         if len(x) > 2 and isinstance(x[2], int):
             return x[2]
@@ -60,6 +65,16 @@ def ev(S, F, x, asg, tabs=None):
             v = hook(x)
             if v is not None:
                 return v
+        hook2 = asg.get("load2")
+        pl = x[1]
+        if hook2 is not None and pl[0] in ("index", "cindex"):
+            basev = ev(S, F, pl[1], asg, tabs)
+            iv = pl[2] if pl[0] == "cindex" else ev(S, F, pl[2], asg, tabs)
+            v = hook2(basev, iv)
+            if v is not None:
+                return v
+        if pl[0] in ("field", "deref", "param", "lv", "local"):
+            return ev(S, F, pl, asg, tabs)
         raise Unknown(sym.fmt(n(x)))
     if k == "index" and x[1][0] == "table":
         arr = tabs(x[1][1]) if tabs else None
@@ -138,6 +153,9 @@ def ev(S, F, x, asg, tabs=None):
         from .norm import WIDENING_FROM
         if len(args) == 1 and WIDENING_FROM.match(path):
             return ev(S, F, args[0], asg, tabs)
+        for key, fn in (asg.get("lazy_calls") or {}).items():
+            if path == key or path.endswith(key):
+                return fn(args)  # handler decides from the unevaluated arguments
         calls = asg.get("calls") or {}
         for key, fn in calls.items():
             if path == key or path.endswith(key):
@@ -168,6 +186,24 @@ def ev(S, F, x, asg, tabs=None):
                 return max(a, b)
             if op == "abs_diff":
                 return abs(a - b)
+        # a function of the crate itself: evaluate its body on the argument values (bounded depth)
+        cb = F.fn(path)
+        if cb is not None and cb.mir is not None and asg.get("_depth", 0) < 4 and not asg.get("no_inline"):
+            vals = [ev(S, F, a, asg, tabs) for a in args]
+            S2 = sym.Sym(cb)
+            # const generic arguments of the call, in order, bind the callee's const parameters
+            cps = {}
+            if isinstance(x[1], int):
+                cargs = [a for a in (S.b.blocks[x[1]]["term"]["callee"].get("args") or []) if a.get("k") in ("val", "cparam")]
+                cnames = [g["n"] for g in cb.d.get("generics", []) if g.get("k") == "const"]
+                for nm_, a_ in zip(cnames[-len(cargs):] if cargs else [], cargs):
+                    if a_["k"] == "val":
+                        cps[nm_] = a_["v"]
+                    elif a_["n"] in (asg.get("cparams") or {}):
+                        cps[nm_] = asg["cparams"][a_["n"]]
+            sub_asg = dict(asg, params={i + 1: v for i, v in enumerate(vals)}, _depth=asg.get("_depth", 0) + 1, cparams=cps)
+            sub_asg.pop("subst", None)
+            return run(S2, F, S2.paths(), sub_asg, tabs)
         if asg.get("symbolic"):
             vals = [ev(S, F, a, asg, tabs) for a in args]
             short = path.rsplit("::", 1)[-1]
@@ -237,6 +273,8 @@ def ev(S, F, x, asg, tabs=None):
         return ("fn", x[1])
     if k == "field" and isinstance(x[2], int):
         v = ev(S, F, x[1], asg, tabs)
+        if isinstance(v, tuple) and v and v[0] in ("obj", "fld"):
+            return ("fld", v, x[2])
         if x[1][0] == "variant" and isinstance(v, tuple) and v and v[0] in ("Some", "Ok", "Err") and x[2] == 0:
             if v[0] != x[1][2]:
                 raise Unknown("payload of %s read as %s" % (v[0], x[1][2]))
@@ -249,6 +287,9 @@ def ev(S, F, x, asg, tabs=None):
     if k in ("ref", "val", "deref", "rawptr"):
         return ev(S, F, x[-1], asg, tabs)
     if k == "len":
+        lz = (asg.get("lazy_calls") or {}).get("core::slice::<impl [T]>::len")
+        if lz is not None:
+            return lz((x[1],))
         hook = (asg.get("calls") or {}).get("core::slice::<impl [T]>::len")
         if hook is not None:
             return hook(ev(S, F, x[1], asg, tabs))
